@@ -4703,7 +4703,7 @@ def _weak_flag_results(facts):
             if stores_v:
                 idx_v = [k_ for k_, x in enumerate(top) if any(y is sv for sv in stores_v for y in walk(x))]
                 idx_f = [k_ for k_, x in enumerate(top) if ir.unwrap(x) in stores_f or x in stores_f]
-                if not idx_f or min(idx_v) > idx_f[-1] and False:
+                if not idx_f:
                     good = False
                     break
                 lastf = idx_f[-1]
